@@ -126,12 +126,13 @@ def expected_statements(lang: str, which: str, be: bool, tcls: str, target: Opti
             if which == "encoder":
                 return [f"s[{{si}}] {A} (((unsigned char *)&({{chain}}))[{fi}] {S}) & {{mask}};"]
             return [f"((unsigned char *)&({{chain}}))[{fi}] {A} (s[{{si}}] {S}) & {{mask}};"]
+        # @U@ stands for an unsigned C integer type; its width is judged separately (needs_width)
         if which == "encoder":
-            return [f"s[{{si}}] {A} (({{U}})({{chain}}){_sm(fi * 8 + shift)}) & {{mask}};"]
+            return [f"s[{{si}}] {A} ((@U@)({{chain}}){_sm(fi * 8 + shift)}) & {{mask}};"]
         bv = f"(((unsigned)(s[{{si}}]){S}) & {{mask}})"
         if fi == 0:
-            return [f"{{chain}} |= ({{CT}}){bv};", f"{{chain}} |= ({{CT}})(({{U}}){bv} << 0);"]
-        out = [f"{{chain}} |= ({{CT}})(({{U}}){bv} << {fi * 8});"]
+            return [f"{{chain}} |= ({{CT}}){bv};", f"{{chain}} |= ({{CT}})((@U@){bv} << 0);"]
+        out = [f"{{chain}} |= ({{CT}})((@U@){bv} << {fi * 8});"]
         if fi * 8 < 32:
             out.append(f"{{chain}} |= ({{CT}})({bv} << {fi * 8});")
         return out
@@ -149,6 +150,30 @@ def expected_statements(lang: str, which: str, be: bool, tcls: str, target: Opti
     return [f"{{chain}} |= {{CT}}({byte}){bsh}"]
 
 
+UNSIGNED_WIDTH = {"uint8_t": 8, "unsigned char": 8, "uint16_t": 16, "unsigned short": 16, "unsigned": 32, "unsigned int": 32, "uint32_t": 32, "uint64_t": 64, "unsigned long long": 64}
+
+
+def match_statement(got: str, want: str) -> Optional[Optional[str]]:
+    """None: no match.  Otherwise the unsigned type found at @U@ ('' if the
+    pattern has none)."""
+    g = _squash(got)
+    pat = re.escape(_squash(want)).replace(re.escape("@U@"), "(" + "|".join(re.escape(_squash(k)) for k in sorted(UNSIGNED_WIDTH, key=len, reverse=True)) + ")")
+    mm = re.fullmatch(pat, g)
+    if mm is None:
+        return None
+    return mm.group(1) if mm.groups() else ""
+
+
+def needs_width(which: str, storage: int, shift: int, fi: int) -> int:
+    """Bits the unsigned working type of a big-endian statement must have:
+    the encoder reads value bits [total, total + 8) (all below the storage
+    size), the decoder places a byte at bit fi * 8."""
+    if which == "encoder":
+        total = fi * 8 + shift
+        return min(storage, max(total, 0) + 8)
+    return min(storage, fi * 8 + 8)
+
+
 def _item_paths(repo: Repo, cls: str, rel: str, meth: str, tcls: str, target: Optional[str], be: bool):
     from .flows import compiler_flow
     from .normal import V
@@ -158,7 +183,7 @@ def _item_paths(repo: Repo, cls: str, rel: str, meth: str, tcls: str, target: Op
     params = [a.arg for a in fi_.node.args.args]
     if len(params) != 8:
         raise Inconclusive(f"{cls}.{meth}: parameter list is {params}")
-    flow = compiler_flow(repo, cls, rel, primitives=("_format_unsigned_chain_type", "format_type"), pure=("_format_unsigned_chain_type", "format_type"), decide=_scenario_decider(repo, tcls, target, {"self._op_mode_big_endian": be}), names={})
+    flow = compiler_flow(repo, cls, rel, primitives=("format_type", "get_nbits_of_integer"), pure=("format_type", "get_nbits_of_integer"), decide=_scenario_decider(repo, tcls, target, {"self._op_mode_big_endian": be}), names={})
     args = {p: V(c) for p, c in zip(params[1:], PARAMS7)}
     args[params[0]] = V("self")
     return fi_, flow.run(fi_.node, args)
@@ -215,45 +240,55 @@ def d2(repo: Repo) -> RuleResult:
                     reported = True
                     break
                 checked = 0
-                fis = range(0, 1) if (tcls == "Bool" or target == "Bool") else range(0, 8)
-                for fi in fis:
+                leaf_ = target or tcls
+                storages = (8,) if leaf_ in ("Bool", "Byte") else (8, 16, 32, 64)
+                grid = [(S_, fi, shift, r) for S_ in storages for fi in (range(0, 1) if leaf_ == "Bool" else range(0, S_ // 8)) for shift in range(-7, 8) for r in (0, 1, 3, 7)]
+                for S_, fi, shift, r in grid:
                     if reported:
                         break
-                    for shift in range(-7, 8):
-                        if reported:
+                    repl = by_name({"r": r, "shift": shift, "fi": fi}, {"get_nbits_of_integer": S_})
+                    ok, unfolded = feasible(paths, repl)
+                    if unfolded:
+                        res.unsure(f"D2: {cls}.{meth}: condition `{unfolded[0]}` does not fold for (r, shift, fi) = ({r}, {shift}, {fi})")
+                        reported = True
+                        break
+                    ok = [p for p in ok if p.done == "return"]
+                    stmts = sorted({(_render(p.ret, repl) or "{?}") for p in ok})
+                    want = expected_statements(lang, which, be, tcls, target, r, shift, fi)
+                    checked += 1
+                    if len(stmts) != 1:
+                        res.unsure(f"D2: {cls}.{meth}: {len(stmts)} statements for one planner output ({r}, {shift}, {fi})")
+                        reported = True
+                        break
+                    got = stmts[0]
+                    if "{?" in got:
+                        res.unsure(f"D2: {cls}.{meth}: statement `{got}` has a hole that is not one of the planner outputs")
+                        reported = True
+                        break
+                    matches = [match_statement(got, w) for w in want]
+                    found = [u for u in matches if u is not None]
+                    if found:
+                        u = found[0]
+                        if u and UNSIGNED_WIDTH[[k for k in UNSIGNED_WIDTH if _squash(k) == u][0]] < needs_width(which, S_, shift, fi):
+                            need = needs_width(which, S_, shift, fi)
+                            f = Finding("D2", fi_.rel, fi_.node.lineno, fi_.qual, got, f"for a {tcls}{'->' + target if target else ''} field stored in {S_} bits and planner output (r={r}, shift={shift}, fi={fi}) the big-endian {which} works on `{u}`, which has fewer than the {need} bits this chunk reaches: the value's upper bits are lost", witness="a field wider than 32 bits at a non byte-aligned position holding a value with bits above 31, -O on a big-endian build", tag=f"{fi_.qual}:{part}:working-type-width")
+                            f.part = part
+                            res.bad(f)
+                            reported = True
                             break
-                        for r in (0, 1, 3, 7):
-                            repl = by_name({"r": r, "shift": shift, "fi": fi})
-                            ok, unfolded = feasible(paths, repl)
-                            if unfolded:
-                                res.unsure(f"D2: {cls}.{meth}: condition `{unfolded[0]}` does not fold for (r, shift, fi) = ({r}, {shift}, {fi})")
-                                reported = True
-                                break
-                            ok = [p for p in ok if p.done == "return"]
-                            stmts = sorted({(_render(p.ret, repl) or "{?}") for p in ok})
-                            want = expected_statements(lang, which, be, tcls, target, r, shift, fi)
-                            checked += 1
-                            if len(stmts) != 1:
-                                res.unsure(f"D2: {cls}.{meth}: {len(stmts)} statements for one planner output ({r}, {shift}, {fi})")
-                                reported = True
-                                break
-                            got = stmts[0]
-                            if "{?" in got:
-                                res.unsure(f"D2: {cls}.{meth}: statement `{got}` has a hole that is not one of the planner outputs")
-                                reported = True
-                                break
-                            if _squash(got) not in {_squash(w) for w in want}:
-                                strip = lambda x: _squash(x).replace("(", "").replace(")", "")
-                                if strip(got) in {strip(w) for w in want}:
-                                    res.unsure(f"D2: {cls}.{meth}: statement `{got}` differs from `{want[0]}` only in parentheses; operator precedence not judged")
-                                    reported = True
-                                    break
-                                msg, wit = _explain(got, want[0], lang, which, be, r, shift, fi, tcls, target)
-                                f = Finding("D2", fi_.rel, fi_.node.lineno, fi_.qual, got, f"for a {tcls}{'->' + target if target else ''} field and planner output (r={r}, shift={shift}, fi={fi}) the {'big-endian ' if be else ''}{which} emits `{got}`; the layout rule requires `{want[0]}`: {msg}", witness=wit, tag=f"{fi_.qual}:{part}:{_tag_of(msg)}")
-                                f.part = part
-                                res.bad(f)
-                                reported = True
-                                break
+                        continue
+                    strip = lambda x: _squash(x).replace("(", "").replace(")", "").replace("@U@", "")
+                    if True:
+                        if strip(got) in {strip(w) for w in want}:
+                            res.unsure(f"D2: {cls}.{meth}: statement `{got}` differs from `{want[0]}` only in parentheses; operator precedence not judged")
+                            reported = True
+                            break
+                        msg, wit = _explain(got, want[0], lang, which, be, r, shift, fi, tcls, target)
+                        f = Finding("D2", fi_.rel, fi_.node.lineno, fi_.qual, got, f"for a {tcls}{'->' + target if target else ''} field and planner output (r={r}, shift={shift}, fi={fi}) the {'big-endian ' if be else ''}{which} emits `{got}`; the layout rule requires `{want[0]}`: {msg}", witness=wit, tag=f"{fi_.qual}:{part}:{_tag_of(msg)}")
+                        f.part = part
+                        res.bad(f)
+                        reported = True
+                        break
                 res.inst(part=part, function=f"{cls}.{meth}", scenario=f"{tcls}{'->' + target if target else ''}", grid_points=checked, paths=len(paths))
     # unsigned working type of the big-endian templates
     try:
@@ -275,7 +310,7 @@ def _explain(got: str, want: str, lang: str, which: str, be: bool, r: int, shift
         if "|=" in w:
             return "assign (`=` where earlier chunks of the same byte / field must be kept)", "`=` at r != 0 clobbers bits already placed in the byte"
         return "assign (`|=` on the first write of a byte that has no zero baseline)", "decode into a reused struct keeps stale bits"
-    if lang == "c" and be and which == "decoder" and "<<" in w and fi * 8 >= 32 and "({U})" not in g.split("<<" + str(fi * 8))[0][-60:]:
+    if lang == "c" and be and which == "decoder" and "<<" in w and fi * 8 >= 32 and not re.search(r"\((uint64_t|unsignedlonglong)\)\(+\(unsigned\)", g):
         return "widen-threshold (the 32-bit `unsigned` byte value is shifted left without first being widened to the field's unsigned type)", "uint33 holding 2**32 decodes as 0 with -O on a big-endian build"
     if lang == "go" and which == "decoder" and "<<" in w and not g.endswith(w[w.rfind("<<"):]):
         return "widen (the chunk is shifted before it is widened to the field's type)", "uint16 field: byte(...) << 8 is always 0"
